@@ -704,6 +704,12 @@ func (st *fstate) external(instr ssa.Instruction, f *ssa.Function, args []ssa.Va
 	if result != nil && hasPointers(result.Type()) {
 		n := st.site(instr, "call", "ext:"+name)
 		st.add(result, nset{n: true})
+		if opaqueReaders[name] {
+			// assumption (stated in evidence): a standard-library reader hands its bytes out only by copying
+			// them into the buffer given to Read; the wrapper itself is of a foreign type that implements none
+			// of the repository's interfaces, so the library cannot reach the wrapped slice through it.
+			return
+		}
 		// results of external calls may alias their pointer arguments (e.g. bytes.NewBuffer(buf), big.Int.Set)
 		for _, av := range args {
 			if hasPointers(av.Type()) {
@@ -713,6 +719,11 @@ func (st *fstate) external(instr ssa.Instruction, f *ssa.Function, args []ssa.Va
 			}
 		}
 	}
+}
+
+var opaqueReaders = map[string]bool{
+	"bytes.NewReader": true, "strings.NewReader": true, "bufio.NewReader": true, "bufio.NewReaderSize": true,
+	"encoding/base64.NewDecoder": true,
 }
 
 func (a *ownEngine) lookupImpls(c *ssa.CallCommon) []*ssa.Function {
